@@ -172,6 +172,7 @@ func evalP7stream(args []string) string {
 	if err := padding.P7BlockEnc(cipher.NewCBCEncrypter(blk, iv), &scriptedReader{append([]byte{}, data...), s1}, &ct); err != nil {
 		return "err"
 	}
+	c19Poison(func() cipher.BlockMode { return cipher.NewCBCDecrypter(blk, iv) }, ct.Bytes(), blk.BlockSize())
 	var pt bytes.Buffer
 	if err := padding.P7BlockDecrypt(cipher.NewCBCDecrypter(blk, iv), &scriptedReader{append([]byte{}, ct.Bytes()...), s2}, &pt); err != nil {
 		return hx(ct.Bytes()) + " err"
@@ -203,6 +204,7 @@ func evalP7rt8(args []string) string {
 	if ct.Len() != len(data)+8-len(data)%8 {
 		return "ORACLE-FAIL:ct-length"
 	}
+	c19Poison(func() cipher.BlockMode { return cipher.NewCBCDecrypter(blk, iv) }, ct.Bytes(), blk.BlockSize())
 	var pt bytes.Buffer
 	if err := padding.P7BlockDecrypt(cipher.NewCBCDecrypter(blk, iv), &scriptedReader{append([]byte{}, ct.Bytes()...), s2}, &pt); err != nil {
 		return "err"
@@ -329,4 +331,20 @@ func genC19(r *rng, tier string, emit func(string)) {
 			emit(fmt.Sprintf("p7rt8 %s %s %s %s %s", hx(r.bytes(24)), hx(r.bytes(8)), hx(data), r.script(l, 5), r.script(l, 5)))
 		}
 	}
+}
+
+// c19Poison: decryptions that fail (bad final pad, a trailing partial block after more than one buffer-full), run
+// on the same goroutine right before the decryption that is judged: every call stands on its own, nothing a
+// failed call leaves behind may reach the next one
+func c19Poison(dec func() cipher.BlockMode, ct []byte, bs int) {
+	var sink bytes.Buffer
+	if len(ct) >= bs {
+		bad := append([]byte{}, ct...)
+		bad[len(bad)-1] ^= 0x55
+		padding.P7BlockDecrypt(dec(), bytes.NewReader(bad), &sink)
+		padding.P7BlockDecrypt(dec(), bytes.NewReader(ct[:len(ct)-1]), &sink)
+	}
+	long := bytes.Repeat([]byte{0xa7}, 1024+3*bs+5)
+	padding.P7BlockDecrypt(dec(), bytes.NewReader(long), &sink)
+	padding.P7BlockDecrypt(dec(), bytes.NewReader(long[:2*bs]), &sink)
 }
